@@ -215,6 +215,24 @@ def check_invocations(obs, ro, ref, prog, lazy_guard=None):
             if e.must and counts.get(key, 0) < e.n:
                 out.append(F(['C01', 'C12'], 'missing_execution', node=key[0], got=counts.get(key, 0),
                              exp=e.n))
+    elif ref.outcome[0] == 'value' and ro.outcome in ('error', 'raised') and not obs.verdict:
+        # the run failed although nothing in the program makes it fail: an execution whose last attempt raised and
+        # which was not re-invoked although its retry policy demands further attempts was abandoned (C12)
+        cur = {}
+        last_raise = {}
+        for r in obs.trace:
+            if r['run'] != run:
+                continue
+            if r['k'] == 'body_start':
+                cur[r['node']] = (r['node'], kkey(rt.cmp_kwargs(prog['nodes'][r['node']], r['kwargs'])))
+            elif r['k'] == 'body_raise' and r['node'] in cur:
+                last_raise[cur[r['node']]] = True
+            elif r['k'] in ('body_ret', 'body_next') and r['node'] in cur:
+                last_raise[cur[r['node']]] = False
+        for key, e in ref.inv.items():
+            c = counts.get(key, 0)
+            if e.must and 0 < c < e.n and last_raise.get(key):
+                out.append(F(['C12'], 'retry_abandoned', node=key[0], got=c, exp=e.n))
     return out, n_cmp
 
 
